@@ -503,11 +503,14 @@ int32_t jls_core_rd_chunk_end(struct jls_core_s * self) {
         if (jls_bk_fread(backend, (uint8_t *) data, (unsigned) length)) {
             return JLS_ERROR_EMPTY;
         }
-        for (int64_t i = (length - sizeof(struct jls_chunk_header_s)) / sizeof(uint64_t); i > 0; --i) {
+        for (int64_t i = (length - sizeof(struct jls_chunk_header_s)) / sizeof(uint64_t); i >= 0; --i) {  // including the first position of the window
             h = (struct jls_chunk_header_s *) &data[i];
             uint32_t crc32 = jls_crc32c_hdr(h);
             if (crc32 == h->crc32) {
                 int64_t pos_final = pos + i * sizeof(uint64_t);
+                if (pos_final < (int64_t) sizeof(struct jls_file_header_s)) {
+                    continue;  // the file header also ends with the CRC of its first 28 bytes
+                }
                 // likely chunk candidate, validate payload
                 if (jls_raw_chunk_seek(self->raw, pos_final)) {
                     return JLS_ERROR_IO;
